@@ -42,6 +42,9 @@ def cases(tier, seed):
     for shape in ((2, 2), (3, 2), (2, 3)) if tier == "quick" else ((1, 1), (2, 2), (3, 2), (2, 3), (3, 3)):
         for dt in ("float64", "int64"):
             out.append({"kind": "dot", "shape": list(shape), "dtype": dt, "name": f"nb_dot/{dt}/shape={shape}"})
+    # bools_to_categorical: every row is labelled with exactly its true columns (frame path of nb_dot, np.unique, bit tests)
+    for shape in (((2, 2), (1, 3)) if tier == "quick" else ((2, 2), (1, 3), (3, 2), (2, 3), (2, 1))):
+        out.append({"kind": "bools", "shape": list(shape), "name": f"bools_to_categorical/{shape[0]} rows x {shape[1]} boolean columns", "witness": shape == (2, 2)})
     # pretty_cut: every value lands in the bin whose printed bounds contain it (bin edges enumerated, values symbolic)
     int_bins = [[5, 10, 15], [10, 5], [3], [-4, 0, 4], [1, 1, 3]]
     flt_bins = [[1.5, 2.5], [-3.5, 2.5], [-0.5, 0.5, 0.75], [2.0, 1.0], [-4.25, -1.5], [0.1, 0.3]]
@@ -68,6 +71,8 @@ def run_case(E, case):
         return run_dot(E, case)
     if k == "pretty_cut":
         return run_pretty_cut(E, case)
+    if k == "bools":
+        return run_bools(E, case)
     raise Unsupported(k)
 
 
@@ -246,6 +251,72 @@ def run_dot(E, case):
 
 
 # ------------------------------------------------------------------ replay
+# ------------------------------------------------------------------ bools_to_categorical
+COLNAMES = ["A", "B", "C", "D"]
+
+
+def run_bools(E, case):
+    from ..models import FakeFrame, FakeSeries, LIndex
+    t0 = time.time()
+    ut = E["util"]
+    R, C = case["shape"]
+    inp = Inputs()
+    cols = {COLNAMES[j]: inp.bools(f"c{j}_", R) for j in range(C)}
+
+    def body():
+        df = FakeFrame({k: A(v, "bool").tag("input:df") for k, v in cols.items()}, index=LIndex(list(range(R))))
+        return ut["bools_to_categorical"](df)
+    paths = run_paths(body, prune=True)
+    bads = []
+    for pc, out, _ in paths:
+        pcz = b_and(*pc) if pc else True
+        cat = out.arr if isinstance(out, FakeSeries) else out
+        codes = cat.codes.cells if isinstance(cat.codes, A) else list(cat.codes)
+        cats = list(cat.categories)
+        if len(codes) != R:
+            bads.append(("one label per row", pcz))
+            continue
+        for r in range(R):
+            c = codes[r]
+            if is_sym(c):
+                raise Unsupported("symbolic category code")
+            if not 0 <= int(c) < len(cats):
+                bads.append((f"row {r}: code {c} outside the categories", pcz))
+                continue
+            lab = cats[int(c)]
+            named = set() if lab == "None" else set(lab.split(" & "))
+            ok = b_and(*[(cols[COLNAMES[j]][r] if COLNAMES[j] in named else b_not(cols[COLNAMES[j]][r])) for j in range(C)])
+            extra = named - set(COLNAMES[:C])
+            if extra:
+                bads.append((f"row {r}: label {lab!r} names unknown columns", pcz))
+            bads.append((f"row {r}: the label names exactly the true columns", b_and(pcz, b_not(ok))))
+        if len(set(cats)) != len(cats):
+            # duplicate categories would make from_codes raise in pandas
+            bads.append(("duplicate category labels", pcz))
+    wit = []
+    if case.get("witness"):
+        wit = [("a row with no true column", b_and(*[b_not(cols[COLNAMES[j]][0]) for j in range(C)])),
+               ("two rows with the same pattern", b_and(*[cols[COLNAMES[j]][0] == cols[COLNAMES[j]][1] for j in range(C)]))]
+    r_ = _finish(E, inp, bads, paths, t0, case, f"bools_to_categorical:{R}x{C}", wit)
+    r_["paths"] = len(paths)
+    return r_
+
+
+def replay_bools(case, conc):
+    import pandas as pd
+    import groupby_lib.util as ru
+    R, C = case["shape"]
+    df = pd.DataFrame({COLNAMES[j]: [bool(x) for x in conc[f"c{j}_"]] for j in range(C)})
+    out = ru.bools_to_categorical(df)
+    problems = []
+    for r in range(R):
+        lab = out.iloc[r]
+        exp = " & ".join(COLNAMES[j] for j in range(C) if df.iloc[r, j]) or "None"
+        if lab != exp:
+            problems.append(f"row {r} ({df.iloc[r].tolist()}) labelled {lab!r}, expected {exp!r}")
+    return bool(problems), {"problems": problems, "frame": df.to_dict("list")}
+
+
 # ------------------------------------------------------------------ pretty_cut
 def parse_bin_label(label, integer_bins):
     """printed bounds of a bin -> (lo, hi) as exact Fractions (None = unbounded); the printed number is read back the way it was
@@ -346,6 +417,8 @@ def replay(case, conc, cand=None):
     try:
         if k == "pretty_cut":
             return replay_pretty_cut(case, conc)
+        if k == "bools":
+            return replay_bools(case, conc)
         if k in ("reduce1d", "reduce2d"):
             dt = real_np.dtype(case["dtype"])
             arr = np_values(to_float_cells(conc["x"]), dt)
@@ -394,14 +467,22 @@ def replay(case, conc, cand=None):
 
 
 META = {
-    "glue": ['groupby_lib/nanops.py::count', 'groupby_lib/nanops.py::nanmax', 'groupby_lib/nanops.py::nanmean', 'groupby_lib/nanops.py::nanmin', 'groupby_lib/nanops.py::nanstd', 'groupby_lib/nanops.py::nansum', 'groupby_lib/nanops.py::nanvar', 'groupby_lib/nanops.py::reduce', 'groupby_lib/nanops.py::reduce_1d', 'groupby_lib/nanops.py::reduce_2d', 'groupby_lib/util.py::nb_dot', 'groupby_lib/util.py::parallel_map'],
-    "bounds": {"quick": {"length": "1..4", "n_threads": "1..min(4, len+1)", "2-D shapes": "<= 3x2", "var": "length <= 3, every null pattern", "nb_dot": "<= 3x2"},
-               "thorough": {"length": "1..7", "n_threads": "1..8 (incl. more threads than elements)", "2-D shapes": "<= 4x3", "var": "length <= 4", "nb_dot": "<= 3x3"}},
+    "glue": ['groupby_lib/util.py::pretty_cut', 'groupby_lib/util.py::bools_to_categorical', 'groupby_lib/nanops.py::count', 'groupby_lib/nanops.py::nanmax', 'groupby_lib/nanops.py::nanmean', 'groupby_lib/nanops.py::nanmin', 'groupby_lib/nanops.py::nanstd', 'groupby_lib/nanops.py::nansum', 'groupby_lib/nanops.py::nanvar', 'groupby_lib/nanops.py::reduce', 'groupby_lib/nanops.py::reduce_1d', 'groupby_lib/nanops.py::reduce_2d', 'groupby_lib/util.py::nb_dot', 'groupby_lib/util.py::parallel_map'],
+    "bounds": {"quick": {"length": "1..4", "n_threads": "1..min(4, len+1)", "2-D shapes": "<= 3x2", "var": "length <= 3, every null pattern", "nb_dot": "<= 3x2", "pretty_cut": "2 symbolic values x 11 enumerated edge lists x int64/float64 values", "bools_to_categorical": "2x2, 1x3"},
+               "thorough": {"length": "1..7", "n_threads": "1..8 (incl. more threads than elements)", "2-D shapes": "<= 4x3", "var": "length <= 4", "nb_dot": "<= 3x3", "pretty_cut": "3 symbolic values x 18 enumerated edge lists", "bools_to_categorical": "up to 3x2 / 2x3"}},
     "enumerated": ["array length/shape", "thread count", "null pattern for nanvar/nanstd (the count becomes a constant)", "ddof"],
     "symbolic": ["values and NaN placement (1-D/2-D reducers)", "the non-null values (variance, dot product)"],
     "assumptions": ["NumPy nan-function semantics as the specification: nansum of nothing = 0, nanmin/nanmax/nanmean of nothing = NaN, count = number of non-null values",
                     "int64 arrays exclude INT64_MIN (library-wide null sentinel)", "exact arithmetic; variance as a polynomial identity against the two-pass definition; "
-                    "sqrt as an uninterpreted function (std^2 = var, std >= 0)", "the real parallel_map on the concurrent.futures model"],
-    "outside": ["bools_to_categorical and pretty_cut (np.unique / pd.Categorical / float formatting / searchsorted: pandas and string code)",
+                    "sqrt as an uninterpreted function (std^2 = var, std >= 0)", "the real parallel_map on the concurrent.futures model",
+                    "pretty_cut: the real function runs natively with symbolic values and enumerated concrete bin edges (labels are formatted by the real "
+                    "code on concrete numbers); model of ndarray.searchsorted = number of edges strictly below the value, NaN after everything; a bin "
+                    "'contains' a value when the value lies within the numbers PRINTED in its label (read back with float()/int(); middle bins closed at "
+                    "both ends, the weakest reading); pd.Categorical.from_codes is a record (codes, categories)",
+                    "bools_to_categorical: the real function on a symbolic boolean frame (contract model FakeFrame); np.unique of symbolic integers and "
+                    "the bit tests fork, with the solver pruning impossible branches at every branch point; x & 2^i on a symbolic non-negative integer "
+                    "is the i-th binary digit"],
+    "outside": ["pretty_cut: an explicit precision argument, timedelta data (pd.to_timedelta), Series in/out wrapping; bools_to_categorical: "
+                "custom sep/na_rep, allow_duplicates=False, more than 3 columns or rows",
                 "the min_count != 0 branch (delegates to pandas.core.nanops)", "datetime output converters (pd.to_datetime)", "float rounding"],
 }
